@@ -107,14 +107,12 @@ func (dm *DMap) prepareEntry(e *env) storage.Entry {
 
 func (dm *DMap) putOnReplicaFragment(e *env) error {
 	part := dm.getPartitionByHKey(e.hkey, partitions.BACKUP)
-	f, err := dm.loadOrCreateFragment(part)
+	f, err := dm.lockFragment(part)
 	if err != nil {
 		return err
 	}
-
-	e.fragment = f
-	f.Lock()
 	defer f.Unlock()
+	e.fragment = f
 
 	err = f.storage.PutRaw(e.hkey, e.value)
 	if errors.Is(err, storage.ErrKeyTooLarge) {
@@ -293,14 +291,12 @@ func (dm *DMap) checkPutConditions(e *env) error {
 
 func (dm *DMap) putOnCluster(e *env) error {
 	part := dm.getPartitionByHKey(e.hkey, partitions.PRIMARY)
-	f, err := dm.loadOrCreateFragment(part)
+	f, err := dm.lockFragment(part)
 	if err != nil {
 		return err
 	}
-
-	e.fragment = f
-	f.Lock()
 	defer f.Unlock()
+	e.fragment = f
 	verifhook.At("put.locked", dm.name, e.key)
 
 	if err = dm.checkPutConditions(e); err != nil {
